@@ -21,7 +21,7 @@ static const char *const ctr_names[VF_NCTR] = {
     "integers_width_2", "integers_width_4", "integers_width_8", "negative_integers", "bytes_transcribed", "corpus_files_skipped_too_many_nodes", "nan_patterns"
 };
 
-static int P_C03, P_C10;
+static int P_C03, P_C10, P_C05;
 static vf_doc *D;
 static vf_live L;
 static const char *LABEL;
@@ -220,6 +220,75 @@ static bool traverse_c10(void)
     return r;
 }
 
+
+/* ---- C05: write the tree through the real writer calls; the output must be the canonical
+ * (reference) encoding, be accepted by verify, and decode back to the values written */
+static bool write_tree(binson_writer *w, int id)
+{
+    const vf_node *c = &D->n[id];
+    for (int ch = c->first; ch >= 0; ch = D->n[ch].next) {
+        const vf_node *x = &D->n[ch];
+        vf_count(CT_CALLS, 1); vf_progress++;
+        if (x->name_off >= 0) {
+            const uint8_t *nm = D->bytes + x->name_off;
+            if (!memchr(nm, 0, (size_t) x->name_len) && (ch & 1)) {
+                char *z = (char *) vf_xmalloc((size_t) x->name_len + 1);
+                memcpy(z, nm, (size_t) x->name_len); z[x->name_len] = 0;
+                binson_write_name(w, z);
+                free(z);
+            } else binson_write_name_with_len(w, (const char *) nm, (size_t) x->name_len);
+        }
+        switch (x->kind) {
+        case VK_BOOL: binson_write_boolean(w, x->bval); break;
+        case VK_INT: binson_write_integer(w, x->ival); break;
+        case VK_DBL: { double v; memcpy(&v, &x->dbits, 8); binson_write_double(w, v); break; }
+        case VK_STR: {
+            const uint8_t *s = D->bytes + x->pay_off;
+            if (!memchr(s, 0, (size_t) x->pay_len) && (ch & 1)) {
+                char *z = (char *) vf_xmalloc((size_t) x->pay_len + 1);
+                memcpy(z, s, (size_t) x->pay_len); z[x->pay_len] = 0;
+                binson_write_string(w, z);
+                free(z);
+            } else binson_write_string_with_len(w, (const char *) s, (size_t) x->pay_len);
+            break;
+        }
+        case VK_BYT: binson_write_bytes(w, D->bytes + x->pay_off, (size_t) x->pay_len); break;
+        case VK_OBJ: binson_write_object_begin(w); if (!write_tree(w, ch)) return false; binson_write_object_end(w); break;
+        case VK_ARR: binson_write_array_begin(w); if (!write_tree(w, ch)) return false; binson_write_array_end(w); break;
+        default: return fail("tree", "bad node kind");
+        }
+    }
+    return true;
+}
+static int needed_depth(const vf_doc *d);
+static bool traverse_c05(void)
+{
+    bool isobj = D->root_kind == VK_OBJ;
+    uint8_t *out = L.buf;           /* the live buffer (exact size, ASan-guarded) is the writer's destination */
+    memset(out, 0xA5, D->len);
+    binson_writer w;
+    binson_writer_init(&w, out, D->len);
+    if (isobj) binson_write_object_begin(&w); else binson_write_array_begin(&w);
+    if (!write_tree(&w, 0)) return false;
+    if (isobj) binson_write_object_end(&w); else binson_write_array_end(&w);
+    vf_count(CT_TRANSCRIBED_BYTES, D->len);
+    if (w.error_flags != BINSON_ERROR_NONE) return fail("writer-error", "writer error %d (counter %zu, canonical size %zu)", (int) w.error_flags, binson_writer_get_counter(&w), D->len);
+    if (binson_writer_get_counter(&w) != D->len) return fail("size", "writer produced %zu bytes, the canonical encoding has %zu", binson_writer_get_counter(&w), D->len);
+    if (memcmp(out, D->bytes, D->len)) {
+        size_t i = 0;
+        while (out[i] == D->bytes[i]) i++;
+        return fail("bytes", "writer output differs from the canonical encoding at offset %zu (%02x vs %02x)", i, out[i], D->bytes[i]);
+    }
+    int need = needed_depth(D);
+    if (isobj && need <= 10 && !binson_writer_verify(&w)) return fail("writer-verify", "binson_writer_verify rejects the writer's own output (nesting %d)", need);
+    /* the parser must accept it and decode the values written */
+    if (!traverse_c03()) { char t[300]; snprintf(t, sizeof t, "decoding the writer's output: %s", why); snprintf(why, sizeof why, "%s", t); return false; }
+    binson_parser *p = L.p;
+    bool ok = isobj ? binson_parser_init_object(p, out, D->len) : binson_parser_init_array(p, out, D->len);
+    if (!ok || !binson_parser_verify(p)) return fail("parser-verify", "binson_parser_verify rejects the writer's output (error %d)", (int) p->error_flags);
+    return true;
+}
+
 static int needed_depth(const vf_doc *d)
 {
     int best = 1;
@@ -237,17 +306,17 @@ static void run_doc(vf_doc *d, const char *label, int md)
     D = d; LABEL = label; MDEPTH = md;
     vf_count(CT_DOCS, 1);
     vf_live_alloc(&L, d->bytes, d->len, md, 0);
-    bool ok = P_C03 ? traverse_c03() : traverse_c10();
+    bool ok = P_C03 ? traverse_c03() : P_C05 ? traverse_c05() : traverse_c10();
     if (!ok) {
         /* determinism guard */
         char w1[300];
         snprintf(w1, sizeof w1, "%s", why);
         vf_live_free(&L);
         vf_live_alloc(&L, d->bytes, d->len, md, 0);
-        bool ok2 = P_C03 ? traverse_c03() : traverse_c10();
+        bool ok2 = P_C03 ? traverse_c03() : P_C05 ? traverse_c05() : traverse_c10();
         if (ok2 || strcmp(w1, why)) vf_die("decode violation did not reproduce (%s | %s)", w1, why);
         char sig[160];
-        snprintf(sig, sizeof sig, "decode:%s:%s", P_C03 ? "traverse" : "transcribe", sigk);
+        snprintf(sig, sizeof sig, "decode:%s:%s", P_C03 ? "traverse" : P_C05 ? "write" : "transcribe", sigk);
         vf_str b = { 0 };
         describe(&b);
         vf_str_printf(&b, "mismatch: %s\n", why);
@@ -465,7 +534,7 @@ static void replay_main(void)
     vf_fatal_describe = describe;
     vf_install_fatal();
     vf_live_alloc(&L, R.bytes, R.len, MDEPTH, 0);
-    bool ok = P_C03 ? traverse_c03() : traverse_c10();
+    bool ok = P_C03 ? traverse_c03() : P_C05 ? traverse_c05() : traverse_c10();
     if (!ok) { printf("replay: %s\nVIOLATION property=%s replay=%s\n", why, vf_g.prop, vf_g.replay); exit(VF_EXIT_VIOLATION); }
     printf("replay: traversal matches the reference\n");
     exit(VF_EXIT_OK);
@@ -474,8 +543,8 @@ static void replay_main(void)
 int main(int argc, char **argv)
 {
     vf_main_init(argc, argv, "decode", ctr_names);
-    P_C03 = !strcmp(vf_g.prop, "C03"); P_C10 = !strcmp(vf_g.prop, "C10");
-    if (!P_C03 && !P_C10) vf_die("decode decides C03 and C10");
+    P_C03 = !strcmp(vf_g.prop, "C03"); P_C10 = !strcmp(vf_g.prop, "C10"); P_C05 = !strcmp(vf_g.prop, "C05");
+    if (!P_C03 && !P_C10 && !P_C05) vf_die("decode decides C03, C05 and C10");
     N_DOC = vf_g.thorough ? 4 : 3;
     const char *e;
     if ((e = getenv("VERIF_N"))) N_DOC = atoi(e);
@@ -498,10 +567,10 @@ int main(int argc, char **argv)
     static const int must10[] = { CT_GENDOCS, CT_INTS, CT_DOUBLES, CT_LENGTHS, CT_TRANSCRIBED_BYTES, CT_W8, CT_W16, CT_W32, CT_W64, CT_NEG, CT_NAN, CT_CORPUS };
     vf_evidence_spec es;
     memset(&es, 0, sizeof es);
-    es.c_states = P_C03 ? CT_NODES : CT_DOCS; es.c_transitions = CT_CALLS; es.c_validated = CT_CALLS;
+    es.c_states = P_C10 ? CT_DOCS : CT_NODES; es.c_transitions = CT_CALLS; es.c_validated = CT_CALLS;
     es.bound = bound;
     es.rule = "exhaustive enumeration of documents and value alphabets; states = document positions visited (C03) / documents (C10), transitions = real API calls, every one compared with the reference tree or the input bytes";
     es.assumptions = assumptions; es.nassumptions = 3;
-    if (P_C03) { es.must_be_nonzero = must03; es.n_must = 13; } else { es.must_be_nonzero = must10; es.n_must = 12; }
+    if (P_C03 || P_C05) { es.must_be_nonzero = must03; es.n_must = 13; } else { es.must_be_nonzero = must10; es.n_must = 12; }
     return vf_finish(&es, deaths);
 }
